@@ -178,6 +178,31 @@ def run_c10(ctx):
                 except BaseException as ex:
                     if len(violations) < 5:
                         violations.append(dict(what='float codec raised ' + type(ex).__name__, b=bs.hex()))
+    # values that compare equal but are different values of the codec (signed zeros; 1 / 1.0 / True), encoded
+    # right after one another in both orders: an encoder must not answer from what it encoded before
+    for a_, b_ in (('00000000', '80000000'), ('80000000', '00000000')):
+        for first, second in ((a_, b_), (b_, a_)):
+            for bits_ in (first, second, first):
+                bs = bytes.fromhex(bits_)
+                back = F.float_to_bytes(F.bytes_to_float(bs))
+                fl_n += 1
+                if back != bs and len(violations) < 5:
+                    violations.append(dict(what='float encoding does not round-trip when encoded right after its equal-comparing '
+                                                'twin', b=bs.hex(), back=back.hex(), order=[first, second, first]))
+    for seq in ((1, 1.0), (0, 0.0), (1, True)):
+        F.int_to_bytes(seq[0])
+        try:
+            r_ = F.int_to_bytes(seq[1])
+            violations.append(dict(what='int_to_bytes accepted %r (after encoding %r): %s' % (seq[1], seq[0], r_.hex())))
+        except TypeError:
+            pass
+    for seq in ((1.0, 1), (0.0, 0)):
+        F.float_to_bytes(seq[0])
+        try:
+            r_ = F.float_to_bytes(seq[1])
+            violations.append(dict(what='float_to_bytes accepted %r (after encoding %r): %s' % (seq[1], seq[0], r_.hex())))
+        except TypeError:
+            pass
     n_eval += fl_n
     for bad in (b'', b'\x00', b'\x00' * 3, b'\x00' * 5):
         try:
